@@ -22,6 +22,7 @@ ASSUMPTIONS = ['float64; gradient relative tolerance 1e-9 against the dense mode
                'gradient accumulation over repeated backward calls is torch semantics and not exercised']
 N = [2, 3, 2]
 RX, RY, RA = [1, 2, 2, 1], [1, 3, 2, 1], [1, 2, 2, 1]
+RANK1 = {'last1': ([1, 2, 1, 1], [1, 3, 1, 1], [1, 2, 1, 1]), 'first1': ([1, 1, 2, 1], [1, 1, 3, 1], [1, 1, 2, 1])}
 
 T_LEAVES = ['x', 'y']
 O_LEAVES = ['A']
@@ -36,7 +37,7 @@ TRACK = [('x', None), ('x', 0), ('x', 1), ('x', 2), ('y', None), ('A', None), ('
 
 
 def BOUNDS(tier):
-    return {'max_depth': 2 if tier == 'quick' else 3, 'operand_shape': N, 'leaf_ranks': {'x': RX, 'y': RY, 'A': RA}, 'tracking_choices': len(TRACK),
+    return {'max_depth': 2 if tier == 'quick' else 3, 'operand_shape': N, 'leaf_ranks': {'x': RX, 'y': RY, 'A': RA}, 'leaf_ranks_rank1_bond': RANK1, 'tracking_choices': len(TRACK),
             'ops': T_UN + T_BIN + T_MIX + O_UN + O_BIN, 'terminals': sorted(set(T_TERM + O_TERM))}
 
 
@@ -89,6 +90,20 @@ def cases(tier, seed):
                 for tr in TRACK:
                     if _uses(e, tr[0], term):
                         yield {'e': e, 'term': term, 'kind': 'O', 'track': list(tr)}
+    # leaves with a rank-1 bond (last / first): 1x1x1 and r x n x 1 cores take the scalar shortcuts of reduce_dims, sum, getitem
+    # and the contractions, where a graph-cutting .item() / float() would not change any value
+    for rk in ('last1', 'first1'):
+        for dpt in range(0, min(D, 1) + 1):
+            for e in T[dpt]:
+                for term in T_TERM:
+                    for tr in TRACK:
+                        if _uses(e, tr[0], term):
+                            yield {'e': e, 'term': term, 'kind': 'T', 'track': list(tr), 'rk': rk}
+            for e in O[dpt]:
+                for term in O_TERM:
+                    for tr in TRACK:
+                        if _uses(e, tr[0], term):
+                            yield {'e': e, 'term': term, 'kind': 'O', 'track': list(tr), 'rk': rk}
 
 
 def _glist_cases():
@@ -477,10 +492,11 @@ def run_case(c):
     e = _tupleize(c['e'])
     term, kind = c['term'], c['kind']
     who, core = c['track']
-    key = 'ad|%s|%s|%s' % (repr(e), term, c['track'])
-    leaves = {'x': values.cores_for(space.tensor_struct(N, RX, 'f64', 'gauss'), 'x', 0),
-              'y': values.cores_for(space.tensor_struct(N, RY, 'f64', 'gauss'), 'y', 0),
-              'A': values.cores_for(space.operator_struct(N, N, RA, 'f64', 'gauss'), 'A', 0)}
+    key = 'ad|%s|%s|%s%s' % (repr(e), term, c['track'], '|' + c['rk'] if c.get('rk') else '')
+    rx_, ry_, ra_ = RANK1[c['rk']] if c.get('rk') else (RX, RY, RA)
+    leaves = {'x': values.cores_for(space.tensor_struct(N, rx_, 'f64', 'gauss'), 'x', 0),
+              'y': values.cores_for(space.tensor_struct(N, ry_, 'f64', 'gauss'), 'y', 0),
+              'A': values.cores_for(space.operator_struct(N, N, ra_, 'f64', 'gauss'), 'A', 0)}
     for k in leaves:
         leaves[k] = [t * 0.7 for t in leaves[k]]
     cc, A0c, W, W0 = _consts()
